@@ -22,12 +22,15 @@ import (
 	"io/ioutil"
 	"os"
 	"path"
+	"sync"
 )
 
 type (
 	persister struct {
 		dir    string
 		logger log4g.Logger
+		// saveLock serializes writers of the registry file
+		saveLock sync.Mutex
 	}
 )
 
@@ -74,8 +77,15 @@ func (sp *persister) savePipes(pps []Pipe) error {
 		return errors.Wrapf(err, "could not marshal ppipes ")
 	}
 
-	if err = ioutil.WriteFile(fn, data, 0640); err != nil {
-		return errors.Wrapf(err, "could not write file %s ", fn)
+	// write next to the file and rename over it: a crash leaves the old or the new complete content
+	sp.saveLock.Lock()
+	defer sp.saveLock.Unlock()
+	tmpFn := fn + ".tmp"
+	if err = ioutil.WriteFile(tmpFn, data, 0640); err != nil {
+		return errors.Wrapf(err, "could not write file %s ", tmpFn)
+	}
+	if err = os.Rename(tmpFn, fn); err != nil {
+		return errors.Wrapf(err, "could not rename file %s to %s", tmpFn, fn)
 	}
 
 	return nil
